@@ -34,6 +34,7 @@ func runC03(c *Ctx) {
 	c.Rule("C03.R6", "every acting phase re-checks through processError", 10)
 	c.Rule("C03.R7", "wake-up token: confined one-slot channel, non-blocking send, drained before every re-entry of the phase machine", 5)
 	c.Rule("C03.R8", "the retry-in-preparation flag is consumed where the retry decision is taken; single setter", 2)
+	c.Rule("C03.R11", "a try ended by the global timeout never reaches a positive retry decision", 1)
 	c.Rule("C03.R10", "response-started is raised only where the response headers are written to the client", 1)
 	c.NotDecided = append(c.NotDecided, "bounded completion time itself (liveness)", "that cleanStream is eventually reached for every request", "behaviour under concrete interleavings")
 	c.Assumptions = append(c.Assumptions, "sync/atomic semantics", "utils.Timer fires its callback at most once after Stop returns false")
@@ -436,6 +437,7 @@ func runC03(c *Ctx) {
 	c03RetryFlag(c, pkg)
 	c03WinnerProduces(c, pkg)
 	c03StartedMeansWritten(c, pkg)
+	globalTimeoutFinal(c, pkg, "C03.R11")
 }
 
 // c03Notify (R7): the wake-up token of the phase machine.
